@@ -44,7 +44,7 @@ def generate(seed, tier):
         cs = K.harness_seed(seed, ID, i)
         rng = random.Random(cs)
         profile = rng.choice(["nested", "nested", "multiassign", "multiassign", "guarded", "guarded", "discrete", "mixed",
-                              "continuous", "linear", "symbolic"])
+                              "continuous", "linear", "symbolic", "delay", "counter"])
         prog, feats, meta = G.generate(cs, profile)
         params, inits = G.instantiate_params(rng, meta, prog)
         cont = bool(meta["draws"])
